@@ -193,6 +193,11 @@ def fastaDescOfGenBank (version definition : Bytes) (region : Option (Int × Int
     version ++ 58 :: itoaBytes (head + 1) ++ 45 :: itoaBytes tail ++ 32 :: definition
   | none => version ++ 32 :: definition
 
+/-- `GenBankFields.ID()` (genbank.go): the version, else the accession, else the locus name — the first
+one that is not empty (what `gts query` prints as the sequence ID) -/
+def genbankID (version accession locusName : Bytes) : Bytes :=
+  if !version.isEmpty then version else if !accession.isEmpty then accession else locusName
+
 /-- what `seq.Info()` can be, as far as the writers distinguish it -/
 inductive Info where
   /-- a Go `string` -/
